@@ -595,3 +595,64 @@ Proof.
       rewrite E. intros H. destruct (Hgen (b0 :: rest) H) as (codes & fields & A & B & C).
       exists (b0 :: rest), codes, fields. repeat split; assumption.
 Qed.
+
+(* ------------------------------------------------------------------ *)
+(* SGR mouse: button and modifiers, in the arithmetic of the protocol
+   (xterm ctlseqs, "SGR (1006)": low two bits = button, +4 shift, +8 meta, +16 control, +64 wheel;
+   final `M` = press, `m` = release) *)
+
+Lemma land_64 e : N.land e 64 = if N.testbit e 6 then 64 else 0.
+Proof.
+  apply N.bits_inj. intros i. rewrite N.land_spec.
+  change 64 with (2 ^ 6). rewrite N.pow2_bits_eqb.
+  destruct (N.eqb_spec 6 i) as [<-|Hne].
+  - destruct (N.testbit e 6); cbn [andb]; [rewrite N.pow2_bits_true; reflexivity|rewrite N.bits_0; reflexivity].
+  - rewrite andb_false_r. destruct (N.testbit e 6); [|rewrite N.bits_0; reflexivity].
+    rewrite N.pow2_bits_false by exact Hne. reflexivity.
+Qed.
+
+Lemma small_masks m : m < 8 -> N.land m 511 = m /\ N.lor m 256 = m + 256.
+Proof.
+  intros H.
+  assert (m = 0 \/ m = 1 \/ m = 2 \/ m = 3 \/ m = 4 \/ m = 5 \/ m = 6 \/ m = 7) as Hc by lia.
+  repeat (destruct Hc as [->|Hc]; [split; reflexivity|]). subst m. split; reflexivity.
+Qed.
+
+Theorem dec_mouse_protocol data name mode row col :
+  dec_mouse data = Ok (RSome (PMouse name mode row col)) ->
+  exists body e rest last,
+    mid data 3 1 = Ok body /\ numbers_decode body 59 = e :: (col + 1) :: (row + 1) :: rest /\
+    index data (length data - 1) = Ok last /\
+    mode = (e / 4) mod 8 + (if last =? 77 then 256 else 0) /\
+    name = (let button := e mod 4 in
+            if N.testbit e 6
+            then (if button =? 0 then 4 else if button =? 1 then 5 else 3)     (* wheel down / up / other: move *)
+            else if button =? 3 then 3 else button).                          (* left, middle, right / move *)
+Proof.
+  intros H. pose proof H as H0.
+  destruct (dec_mouse_spec _ _ _ _ _ H) as (body & e & rest & last & Hb & Hn & Hl & Hm).
+  exists body, e, rest, last. split; [exact Hb|]. split; [exact Hn|]. split; [exact Hl|].
+  assert (E7 : N.land (N.shiftr e 2) 7 = (e / 4) mod 8).
+  { rewrite N.shiftr_div_pow2. change 7 with (N.ones 3). rewrite N.land_ones. reflexivity. }
+  assert (E3 : N.land e 3 = e mod 4) by (change 3 with (N.ones 2); rewrite N.land_ones; reflexivity).
+  assert (Hlt : (e / 4) mod 8 < 8) by (apply N.mod_lt; lia).
+  destruct (small_masks _ Hlt) as [M1 M2].
+  split.
+  - rewrite Hm. cbv zeta. rewrite E7, M1. destruct (last =? 77); [exact M2|rewrite N.add_0_r; reflexivity].
+  - unfold dec_mouse in H0. rewrite Hb in H0. cbn [bind] in H0. rewrite Hn in H0.
+    destruct (checked_sub1 (col + 1)) as [c'|]; [|discriminate].
+    destruct (checked_sub1 (row + 1)) as [r'|]; [|discriminate].
+    rewrite Hl in H0. cbn [bind] in H0.
+    assert (Hname : name =
+      (if negb (N.land e 64 =? 0)
+       then (if N.land e 3 =? 0 then 4 else if N.land e 3 =? 1 then 5 else 3)
+       else if N.land e 3 =? 0 then 0 else if N.land e 3 =? 1 then 1 else if N.land e 3 =? 2 then 2 else 3))
+      by (injection H0; intros; subst; reflexivity).
+    rewrite Hname, E3, land_64. cbv zeta.
+    assert (Hb4 : e mod 4 < 4) by (apply N.mod_lt; lia).
+    destruct (N.testbit e 6); [change (64 =? 0) with false|change (0 =? 0) with true]; cbn [negb].
+    + reflexivity.
+    + set (b := e mod 4) in *.
+      assert (b = 0 \/ b = 1 \/ b = 2 \/ b = 3) as Hc by lia.
+      destruct Hc as [-> |[-> |[-> | ->]]]; reflexivity.
+Qed.
